@@ -98,10 +98,12 @@ def processLine (st : St) (line : String) : IO St := do
       | some t =>
         let d := mkTable payload
         for hyp in shapeAudit d (fuelFor d t) handle { tree := t } do
-          if hyp = "deferred-block:methods-have-flags" then
-            -- not yet a failure: the per-block theorem asks for the flags of EVERY live `Method`; a table rejected
-            -- earlier may have left an unnamed, unreachable `Method` without flags behind (counted, see C12 notes)
-            st := { st with stats := st.stats.bump "block_hyp_methods_have_flags_not_met" }
+          if hyp = "#block" then
+            st := { st with stats := st.stats.bump "deferred_blocks_audited" }
+          else if hyp = "#pool-hyp-holds" then
+            st := { st with stats := st.stats.bump "prefix_pool_hyp_holds" }
+          else if hyp = "#pool-hyp-fails" then
+            st := { st with stats := st.stats.bump "prefix_pool_hyp_fails" }
           else
             IO.println s!"PROPFAIL case={st.caseId} clause=shape-hypothesis feature={hyp} op={(opS.take 400).toString}"
             st := { st with stats := st.stats.bump "propfail" }
